@@ -542,6 +542,17 @@ var constPositions = []constPosition{
 	{"ecf", true, false, func(T, op, K string) string { return "s := &S{}; s.F = a; s.F " + op + "= " + K + "; return s.F" }},
 	{"ecs", true, false, func(T, op, K string) string { return "v := []" + T + "{a}; v[0] " + op + "= " + K + "; return v[0]" }},
 	{"xeqc", true, false, func(T, op, K string) string { return "x := a; x = x " + op + " " + K + "; return x" }},
+	// the constant has a name: an untyped named constant behaves like the literal it stands for
+	{"lnc", false, false, func(T, op, K string) string { return "const c = " + K + "; return a " + op + " c" }},
+	{"ncl", false, true, func(T, op, K string) string { return "const c = " + K + "; return c " + op + " a" }},
+	{"gnc", false, false, func(T, op, K string) string { return "return a " + op + " " + ukName(K) }},
+	{"encl", true, false, func(T, op, K string) string { return "const c = " + K + "; x := a; x " + op + "= c; return x" }},
+	{"encg", true, false, func(T, op, K string) string { return "GA = a; GA " + op + "= " + ukName(K) + "; return GA" }},
+}
+
+// ukName is the name of the package-level untyped constant that holds K (declared once per constant by constScript).
+func ukName(K string) string {
+	return "UK_" + strings.NewReplacer("-", "m", ".", "p", "+", "").Replace(K)
 }
 
 var incPositions = []position{
@@ -595,7 +606,7 @@ var declPositions = []struct {
 	{"dmapset", nil, func(T, K string) string { return "m := map[string]" + T + "{}; m[\"k\"] = " + K + "; return m[\"k\"]" }, false},
 	{"dglobal", func(T, K string) string { return "var G_NAME " + T + " = " + K }, func(T, K string) string { return "return G_NAME" }, false},
 	{"dconst", func(T, K string) string { return "const C_NAME " + T + " = " + K }, func(T, K string) string { return "x := C_NAME; return x" }, false},
-	{"dconstgroup", func(T, K string) string { return "const (\n\tCA_NAME " + T + " = " + K + "\n\tCB_NAME\n\tCC_NAME\n)" }, func(T, K string) string { return "x := CC_NAME; return x" }, false},
+	{"dconstgroup", func(T, K string) string { return "const ( CA_NAME " + T + " = " + K + "; CB_NAME; CC_NAME )" }, func(T, K string) string { return "x := CC_NAME; return x" }, false},
 	{"dvariadic", nil, func(T, K string) string { return "return first(" + K + ", " + K + ")" }, false},
 	{"dmulti", nil, func(T, K string) string { return "var x, y " + T + " = " + K + ", " + K + "; return x + y - y" }, false},
 }
@@ -1247,6 +1258,7 @@ func constScript(t ntype, T string, ks []num) string {
 	var sb strings.Builder
 	sb.WriteString(header(T))
 	for _, k := range ks {
+		fmt.Fprintf(&sb, "const %s = %s\n", ukName(k.lit()), k.lit())
 		for _, p := range constPositions {
 			for _, op := range opsFor(t, !p.Compound) {
 				if !constOK(op, t, k, p.ConstLeft) {
